@@ -5,6 +5,7 @@ def c15 (input implOut : Sexp) : Option Verdict := do
   let r ← (match input with
     | .list (.atom "lg" :: _) => handleProgram input implOut
     | .list (.atom "tl" :: _) => handleWitness input implOut
+    | .list (.atom "fl" :: _) => handleFloats input implOut
     | .list (.atom "cfg" :: _) => handleConfig input implOut
     | _ => none)
   pure { agree := Sexp.beq r.model implOut, holds := r.holds, cls := r.cls, model := r.model }
